@@ -487,7 +487,7 @@ type tailBuffer struct {
 func (t *tailBuffer) Write(p []byte) (int, error) {
 	t.mu.Lock()
 	defer t.mu.Unlock()
-	if len(t.b) < 1<<16 {
+	if len(t.b) < 1<<23 {
 		t.b = append(t.b, p...)
 	}
 	return len(p), nil
